@@ -437,6 +437,11 @@ class Unfolder:
             return out
         if isinstance(s, (ast.With, ast.AsyncWith)):
             return self.block(s.body, states, cls, fn, ctx, depth)
+        if isinstance(s, ast.Delete):
+            for st in states:
+                for tg in s.targets:
+                    st.events.append(Event("delete", target=text(subst(tg, st.env)), conds=st.conds, node=s, **self._c(ctx)))
+            return states
         if isinstance(s, (ast.Continue, ast.Break, ast.Pass, ast.Import, ast.ImportFrom, ast.Global, ast.Nonlocal)):
             return states
         # anything else: record calls
